@@ -119,6 +119,45 @@ def type_names(t, acc=None):
     return acc
 
 
+def render(t, lang, top=True):
+    """Independent rendering of an IR type in Kotlin / Scala syntax (None: not rendered for this language)."""
+    if lang not in ('kotlin', 'scala') or t is None:
+        return None
+    n = type(t).__name__
+    lb, rb = ('<', '>') if lang == 'kotlin' else ('[', ']')
+    if n == 'WildCardType':
+        if top:
+            b = t
+            k = 0
+            while type(b).__name__ == 'WildCardType' and b.bound is not None and k < 5:
+                b = b.bound
+                k += 1
+            return render(b, lang, True) if type(b).__name__ != 'WildCardType' else None
+        if t.bound is None or t.variance.is_invariant():
+            return '*' if lang == 'kotlin' else '?'
+        inner = render(t.bound, lang, True)
+        if inner is None:
+            return None
+        if lang == 'kotlin':
+            return ('out ' if t.variance.is_covariant() else 'in ') + inner
+        return ('? <: ' if t.variance.is_covariant() else '? >: ') + inner
+    if n == 'TypeParameter':
+        return t.name
+    if hasattr(t, 'type_args') and hasattr(t, 't_constructor'):
+        if lang == 'kotlin' and type(t.t_constructor).__name__ == 'SpecializedArrayType':
+            e = render(t.type_args[0], lang, True)
+            return None if e is None else e + 'Array'
+        args = [render(a, lang, False) for a in t.type_args]
+        if any(a is None for a in args):
+            return None
+        return '%s%s%s%s' % (t.name, lb, ', '.join(args), rb)
+    return getattr(t, 'name', None)
+
+
+def same_text(a, b):
+    return re.sub(r'\s+', '', a or '') == re.sub(r'\s+', '', b or '')
+
+
 # ------------------------------------------------------------------ scanning
 class Scan:
     def __init__(self, text, lang):
@@ -256,6 +295,13 @@ def judge_text(program, text, lang, stage, col):
                     bad('forward/field-missing', cls=c.name, field=f.name, header=header[:200])
                 elif (m.group(1) == 'val') != bool(f.is_final):
                     bad('forward/field-finality', cls=c.name, field=f.name, printed=m.group(1), final=f.is_final)
+                want = render(f.get_type(), lang)
+                if m and want is not None:
+                    item()
+                    flat = re.sub(r'\s+', '', header).replace('`', '')
+                    if re.sub(r'\s+', '', '%s:%s' % (f.name, want)) not in flat:
+                        bad('forward/field-type-text-differs', cls=c.name, field=f.name, want=want[:120],
+                            printed=header[m.start():m.start() + 120])
                 if m and lang == 'kotlin':
                     pre = header[max(0, m.start() - 30):m.start()]
                     if bool(re.search(r'override[ \t]+$', pre) or re.search(r'override[ \t]+(open[ \t]+)?$', pre)) != bool(f.override):
@@ -279,6 +325,13 @@ def judge_text(program, text, lang, stage, col):
             bad('forward/function-missing', name=f.name, cls=cls.name if cls else None)
             continue
         mods, params_text, after = fm
+        if '<closure>' in mods and lang == 'groovy':
+            item()
+            is_def = '<def>' in mods
+            is_void = f.ret_type is not None and type(f.ret_type).__name__ in ('VoidType', 'UnitType')
+            if not is_void and is_def != (f.ret_type is None):
+                bad('annotation/return-type-%s' % ('carried-but-not-printed' if is_def else 'printed-but-not-carried'),
+                    function=f.name, closure=True)
         if lang in ('kotlin', 'scala') and cls is not None and ('override' in mods) != bool(f.override):
             bad('forward/function-override-modifier', name=f.name, printed=mods, override=f.override)
         if lang in ('kotlin', 'java') and cls is not None and not cls.is_interface() and ('abstract' in mods) != (f.body is None):
@@ -315,6 +368,13 @@ def judge_text(program, text, lang, stage, col):
                 missing = [n for n in tn if not re.search(ts.ident_re(n), seg)]
                 if missing:
                     bad('forward/parameter-type-mentions', function=f.name, param=p.name, printed=seg[:100], missing=missing)
+                want = render(p.get_type(), lang) if not p.vararg else None
+                if want is not None:
+                    item()
+                    flat = re.sub(r'\s+', '', seg)
+                    if re.sub(r'\s+', '', '%s:%s' % (p.name, want)) not in flat.replace('`', ''):
+                        bad('forward/parameter-type-text-differs', function=f.name, param=p.name, printed=seg.strip()[:120],
+                            want=want[:120])
                 if p.vararg and '<lambda>' not in mods and not re.search(
                         {'kotlin': r'\bvararg\b', 'java': r'\.\.\.', 'groovy': r'\.\.\.', 'scala': r'\*'}[lang], seg):
                     bad('forward/vararg-marker', function=f.name, param=p.name, printed=seg[:80])
@@ -331,6 +391,11 @@ def judge_text(program, text, lang, stage, col):
                 missing = [n for n in type_names(f.ret_type) if not re.search(ts.ident_re(n), ann)]
                 if missing:
                     bad('annotation/return-type-mentions', function=f.name, printed=ann[:80], missing=missing)
+                want = render(f.ret_type, lang)
+                if want is not None and len(rest) < 400 or (want is not None and ('=' in rest[:400] or '{' in rest[:400])):
+                    item()
+                    if not same_text(ann, want):
+                        bad('annotation/return-type-text-differs', function=f.name, printed=ann.strip()[:120], want=want[:120])
     # ---------------- variables
     for v, top in inv.vars:
         item()
@@ -348,10 +413,15 @@ def judge_text(program, text, lang, stage, col):
                 bad('annotation/variable-type-%s' % ('printed-but-not-carried' if printed else 'carried-but-not-printed'),
                     name=v.name, text=T[m.start():m.end() + 40])
             elif printed:
-                ann = T[m.end():m.end() + 300].split('=')[0]
+                ann = T[m.end():m.end() + 400].split('=')[0]
                 missing = [n for n in type_names(v.var_type) if not re.search(ts.ident_re(n), ann)]
                 if missing:
                     bad('annotation/variable-type-mentions', name=v.name, printed=ann[:80], missing=missing)
+                want = render(v.var_type, lang)
+                if want is not None and '=' in T[m.end():m.end() + 400]:
+                    item()
+                    if not same_text(ann, want):
+                        bad('annotation/variable-type-text-differs', name=v.name, printed=ann.strip()[:120], want=want[:120])
         else:
             m = re.search(r'([^\n;{}()=]*?)' + ts.ident_re(v.name) + r'[ \t]*=(?!=)', T)
             if not m:
@@ -506,7 +576,7 @@ def find_function(sc, lang, f, region=None):
         return m.group(1).split(), T[op + 1:cl], base + cl + 1
     if lang == 'groovy':
         # nested functions are closures: def name = { params -> ... }
-        m = re.search(r'(?:def|Closure[^\n=]*?)[ \t]+' + name + r'[ \t]*=[ \t]*\{', T)
+        m = re.search(r'(def|Closure[^\n=]*?)[ \t]+' + name + r'[ \t]*=[ \t]*\{', T)
         if m:
             # parameter list = text up to the first `->` that is not nested in brackets
             j, depth = m.end(), 0
@@ -519,7 +589,7 @@ def find_function(sc, lang, f, region=None):
                     if depth < 0:
                         break
                 elif ch == '-' and T[j + 1] == '>' and depth == 0:
-                    return ['<closure>'], T[m.end():j], base + j + 2
+                    return ['<closure>'] + (['<def>'] if m.group(1) == 'def' else []), T[m.end():j], base + j + 2
                 j += 1
     if lang == 'java':
         m = re.search(r'[\w.<>\[\], ?]+[ \t]+' + name + r'[ \t]*=[ \t]*\(([^\n]*?)\)[ \t]*->', T)
@@ -650,7 +720,7 @@ def finish(tier, cov):
 def run_shard(spec, col):
     quick = col.tier == 'quick'
     boot.init(spec['lang'])
-    progcheck.run(spec, col, make_judge(col), n_seed=10 if quick else 300, n_tape=30 if quick else 1000, shrink=False)
+    progcheck.run(spec, col, make_judge(col), n_seed=24 if quick else 300, n_tape=30 if quick else 1000, shrink=False)
 
 
 def replay(key, col):
